@@ -261,18 +261,21 @@ Qed.
 
 (* channel names in one run must not collide through the key scheme (finding map-key-collision) *)
 Definition keys_okb (U : list string) : bool :=
-  forallb (fun a => forallb (fun b => negb (String.eqb (k_state a) (k_smeta b)) && negb (String.eqb (k_state a) (k_expire b))) U) U.
+  forallb (fun a => forallb (fun b => negb (String.eqb (k_state a) (k_smeta b)) && negb (String.eqb (k_state a) (k_expire b))
+                                      && negb (String.eqb (k_state a) (k_order b))) U) U.
 
 Record keys_ok (U : list string) : Prop := mkKeysOk {
   K_ss : forall a b, In a U -> In b U -> k_state a <> k_smeta b;
-  K_se : forall a b, In a U -> In b U -> k_state a <> k_expire b
+  K_se : forall a b, In a U -> In b U -> k_state a <> k_expire b;
+  K_so : forall a b, In a U -> In b U -> k_state a <> k_order b
 }.
 
 Lemma keys_okb_sound U : keys_okb U = true -> keys_ok U.
 Proof.
   unfold keys_okb. intros H. rewrite forallb_forall in H.
   constructor; intros a b Ha Hb; specialize (H a Ha); rewrite forallb_forall in H; specialize (H b Hb);
-    apply andb_true_iff in H as [H1 H2]; apply negb_true_iff in H1, H2; apply String.eqb_neq in H1, H2; assumption.
+    apply andb_true_iff in H as [H1 H3]; apply andb_true_iff in H1 as [H1 H2];
+    apply negb_true_iff in H1, H2, H3; apply String.eqb_neq in H1, H2, H3; assumption.
 Qed.
 
 Definition chan_keys (c : string) : list string := [k_stream c; k_meta c; k_state c; k_expire c; k_smeta c].
@@ -294,3 +297,13 @@ Proof.
     try (symmetry in E; revert E; first [apply k_stream_meta|apply k_stream_state|apply k_stream_expire|apply k_stream_smeta
                          |apply k_meta_state|apply k_meta_expire|apply k_meta_smeta|apply k_expire_smeta]).
 Qed.
+
+(* the ordered-state key (only ever deleted, by Clear) and the cleanup registration key *)
+Lemma k_order_not_chan U a b : keys_ok U -> In a U -> In b U -> ~ In (k_order a) (chan_keys b).
+Proof.
+  intros HK Ha Hb. pose proof (K_so _ HK b a Hb Ha) as Hso. unfold chan_keys. cbn [In].
+  intros [E|[E|[E|[E|[E|[]]]]]]; try discriminate E. first [contradiction | symmetry in E; contradiction].
+Qed.
+Lemma k_cleanup_not_chan c : ~ In k_cleanup (chan_keys c).
+Proof. unfold chan_keys. cbn [In]. intros [E|[E|[E|[E|[E|[]]]]]]; discriminate E. Qed.
+Lemma k_cleanup_order c : k_cleanup <> k_order c. Proof. discriminate. Qed.
